@@ -109,6 +109,41 @@ def run (g : Graph) (lim : Option Nat) (s : St) : List Label → Except String S
     | some s' => run g lim s' ls
     | none => .error ("model refuses " ++ reprStr l)
 
+def whoStr : Who → String | .M => "M" | .C => "C"
+
+/-- which rule of `step?`, and which branch of it, a replayed step took (label coverage of the tie: the harness prints
+the histogram into the evidence and counts every branch that no real schedule reached) -/
+def branchOf (g : Graph) (s s' : St) : Label → String
+  | .schedNext w _ => "schedNext." ++ whoStr w
+  | .schedEnd w => "schedEnd." ++ whoStr w
+  | .ready w => "ready." ++ whoStr w ++
+      (match (getSched s' w).map (·.sub) with | some (.enter _) => ":ready" | _ => ":not-ready")
+  | .enter w => "enter." ++ whoStr w ++
+      (match (getSched s' w).map (·.sub) with | some (.spawn _) => ":claimed" | _ => ":lost")
+  | .spawn w => "spawn." ++ whoStr w
+  | .wBegin v => if g.skip v then "wBegin:skipped" else "wBegin:visit"
+  | .wReturn _ e => if e then "wReturn:err" else "wReturn:ok"
+  | .wDone _ => "wDone"
+  | .wSend _ => "wSend"
+  | .wExit _ =>
+      if s'.errExits.length > s.errExits.length then
+        (if s.firstErr.isNone then "wExit:first-error" else "wExit:later-error")
+      else "wExit:ok"
+  | .cRecv => if s'.cAlive then "cRecv:continue" else "cRecv:last"
+  | .cCtxDone => "cCtxDone"
+  | .extCancel => "extCancel"
+
+/-- replay monad: the branches taken so far (newest first) over the refusal message -/
+abbrev RM := StateT (List String) (Except String)
+
+def runT (g : Graph) (lim : Option Nat) (s : St) : List Label → RM St
+  | [] => pure s
+  | l :: ls => match step? g lim s l with
+    | some s' => do
+      modify (branchOf g s s' l :: ·)
+      runT g lim s' ls
+    | none => throw ("model refuses " ++ reprStr l)
+
 def advance (w : Who) (e : Evt) : Except String (List Label) :=
   if e.next == "ready" then .ok [.schedNext w e.nextKey]
   else if (w == .M && e.next == "M.wait") || (w == .C && e.next == "C.select") then .ok [.schedEnd w]
@@ -116,25 +151,25 @@ def advance (w : Who) (e : Evt) : Except String (List Label) :=
 
 def subOf (s : St) (w : Who) : Option SubPc := (getSched s w).map (·.sub)
 
-def applyEvt (g : Graph) (lim : Option Nat) (s : St) (e : Evt) : Except String St := do
+def applyEvt (g : Graph) (lim : Option Nat) (s : St) (e : Evt) : RM St := do
   match e.g, e.step with
   | "M", "init" =>
     let ls ← advance .M e
-    run g lim s ls
+    runT g lim s ls
   | "M", "M.wait" =>
     if ¬ decide (terminal s) then throw "walk returned but the model is not terminal"
     let r := match s.firstErr with | none => "nil" | some v => "E" ++ ns v
     if r != e.res then throw ("walk returned " ++ e.res ++ ", model says " ++ r)
     pure s
   | "W", "W.begin" =>
-    let s' ← run g lim s [.wBegin e.key]
+    let s' ← runT g lim s [.wBegin e.key]
     let entered := wpc s'.workers e.key == some .running
     if entered != (e.next == "visit") then throw "skip decision differs"
     pure s'
-  | "W", "visit" => run g lim s [.wReturn e.key (e.res == "err")]
-  | "W", "W.done" => run g lim s [.wDone e.key]
-  | "W", "W.send" => run g lim s [.wSend e.key]
-  | "W", "W.exit" => run g lim s [.wExit e.key]
+  | "W", "visit" => runT g lim s [.wReturn e.key (e.res == "err")]
+  | "W", "W.done" => runT g lim s [.wDone e.key]
+  | "W", "W.send" => runT g lim s [.wSend e.key]
+  | "W", "W.exit" => runT g lim s [.wExit e.key]
   | "C", "C.select" =>
     if !(s.cAlive && s.cSched.isNone) then throw "coordinator not at select in the model"
     if e.next == "C.recv" then
@@ -150,56 +185,75 @@ def applyEvt (g : Graph) (lim : Option Nat) (s : St) (e : Evt) : Except String S
       if s.expect != 1 then throw "coordinator exits but model expect ≠ 1"
       pure s
     else
-      let s' ← run g lim s [.cRecv]
+      let s' ← runT g lim s [.cRecv]
       if !s'.cAlive then throw "model coordinator exits, real one continues"
       let ls ← advance .C e
-      run g lim s' ls
+      runT g lim s' ls
   | "C", "C.exit" =>
-    let s' ← run g lim s [.cRecv]
+    let s' ← runT g lim s [.cRecv]
     if s'.cAlive then throw "real coordinator exited, model one continues"
     pure s'
-  | "C", "C.ctxDone" => run g lim s [.cCtxDone]
-  | "X", "extCancel" => run g lim s [.extCancel]
+  | "C", "C.ctxDone" => runT g lim s [.cCtxDone]
+  | "X", "extCancel" => runT g lim s [.extCancel]
   | gs, st =>
     match whoOf gs with
     | none => throw ("unknown goroutine " ++ gs)
     | some w =>
       if st == "ready" then
         if subOf s w != some (.ready e.key) then throw "model is not at ready of this vertex"
-        let s' ← run g lim s [.ready w]
+        let s' ← runT g lim s [.ready w]
         if e.next == "enter" then pure s' else
           let ls ← advance w e
-          run g lim s' ls
+          runT g lim s' ls
       else if st == "enter" then
         if subOf s w != some (.enter e.key) then throw "model is not at enter of this vertex"
-        let s' ← run g lim s [.enter w]
+        let s' ← runT g lim s [.enter w]
         if e.next == "spawn" then pure s' else
           let ls ← advance w e
-          run g lim s' ls
+          runT g lim s' ls
       else if st == "spawn" then
         if subOf s w != some (.spawn e.key) then throw "model is not at spawn of this vertex"
-        let s' ← run g lim s [.spawn w]
+        let s' ← runT g lim s [.spawn w]
         let ls ← advance w e
-        run g lim s' ls
+        runT g lim s' ls
       else throw ("unknown step " ++ st)
 
+def insertCount (k : String) (n : Nat) : List (String × Nat) → List (String × Nat)
+  | [] => [(k, n)]
+  | (k', m) :: r => if k == k' then (k', m + n) :: r else (k', m) :: insertCount k n r
+
+def countsJson (l : List (String × Nat)) : Json :=
+  Json.arr (l.map (fun p => Json.arr #[Json.str p.1, Json.num (JsonNumber.fromNat p.2)])).toArray
+
 def replayTrace (g : Graph) (lim : Option Nat) (evs : List String) : Json :=
-  let rec go (s : St) (i : Nat) : List String → Json
-    | [] => Json.mkObj [("ok", true), ("n", i), ("terminal", decide (terminal s))]
+  let rec go (s : St) (i : Nat) (acc : List String) : List String → Json
+    | [] => Json.mkObj [("ok", true), ("n", i), ("terminal", decide (terminal s)),
+        ("labels", countsJson (acc.foldl (fun m k => insertCount k 1 m) []))]
     | es :: rest =>
       let e := parseEvt es
-      match applyEvt g lim s e with
+      match (applyEvt g lim s e).run acc with
       | .error why => Json.mkObj [("ok", false), ("at", i), ("ev", es), ("why", why), ("model", view lim s)]
-      | .ok s' =>
+      | .ok (s', acc') =>
         if e.view != "" && !viewMatch e.view.toList (view lim s').toList then
           Json.mkObj [("ok", false), ("at", i), ("ev", es), ("why", "view"), ("model", view lim s')]
-        else go s' (i + 1) rest
+        else go s' (i + 1) acc' rest
   -- `walk` returns nil before creating any goroutine when the graph has no vertex (traversal.go:86-88)
   if g.verts.isEmpty then
     if evs == ["M|M.wait||||nil|"] then Json.mkObj [("ok", true), ("n", 1), ("terminal", true)]
     else Json.mkObj [("ok", false), ("at", 0), ("ev", evs.headD ""), ("why", "empty graph: walk must return nil at once"), ("model", "")]
   else
-  go (init g) 0 evs
+  go (init g) 0 [] evs
+
+def labelCounts (r : Json) : List (String × Nat) :=
+  match r.getObjVal? "labels" with
+  | .ok (.arr a) => a.toList.filterMap fun e => match e with
+    | .arr p => match p.toList with
+      | [k, n] => match k.getStr?, n.getNat? with
+        | .ok k, .ok n => some (k, n)
+        | _, _ => none
+      | _ => none
+    | _ => none
+  | _ => []
 
 def getInt (j : Json) (k : String) : Int :=
   match j.getObjVal? k with
@@ -236,7 +290,9 @@ def replay : Handler := fun args =>
     | _ => []
   let res := traces.map (replayTrace g lim)
   let bad := res.filter fun r => getBool r "ok" == false
-  Json.mkObj [("traces", traces.length), ("bad", Json.arr (bad.take 3).toArray), ("nbad", bad.length)]
+  -- label coverage: which rule / branch of `step?` the accepted real traces went through, summed over the case
+  let labels := res.foldl (fun m r => (labelCounts r).foldl (fun m p => insertCount p.1 p.2 m) m) []
+  Json.mkObj [("traces", traces.length), ("bad", Json.arr (bad.take 3).toArray), ("nbad", bad.length), ("labels", countsJson labels)]
 
 /-- which vertices `t.skip` says are not visited (correspondence of `skipOf` alone) -/
 def skips : Handler := fun args =>
